@@ -610,9 +610,14 @@ class Server(service.MultiService):
         log.msg("beginning app prune")
         for app_id in sorted(self.get_all_apps()):
             log.msg(" app prune checking %r" % (app_id,))
+            # only forget AppNamespaces that we instantiate here: one that
+            # already existed may be held by a bound connection, which would
+            # otherwise open its mailbox on an orphaned object that neither
+            # other connections nor later prunes can see
+            existed = app_id in self._apps
             app = self.get_app(app_id)
             in_use = app.prune(now, old)
-            if not in_use:
+            if not in_use and not existed:
                 del self._apps[app_id]
         log.msg("app prune ends, %d apps" % len(self._apps))
 
